@@ -67,6 +67,17 @@ def fmtRat (q : Q) : String :=
     else s!"{q.num}:-{k}"
   else s!"{q.num}/{d}"
 
+/-- human-readable decimal approximation (6 decimals, truncated), for messages only -/
+def fmtApprox (q : Q) : String :=
+  let neg := q < 0
+  let a := if neg then -q else q
+  let scaled : Nat := ((a * 1000000).floor).toNat
+  let ip := scaled / 1000000
+  let fp := scaled % 1000000
+  let fs := toString fp
+  let pad := String.ofList (List.replicate (6 - fs.length) '0')
+  (if neg then "-" else "") ++ toString ip ++ "." ++ pad ++ fs
+
 def fmtOQ : Option Q → String
   | none => "NA"
   | some q => fmtRat q
